@@ -604,10 +604,9 @@ func (r *Reader) parseTable(tableNode *html.Node) *ParsedTable {
 			case "tbody", "tfoot":
 				r.parseTableRows(c, table, false)
 			case "tr":
-				row := r.parseTableRow(c, false)
-				if len(row) > 0 {
-					table.Rows = append(table.Rows, row)
-				}
+				// A row without cells of its own still is a row of the grid: the
+				// cells that span into it from above count their rows by it
+				table.Rows = append(table.Rows, r.parseTableRow(c, false))
 			}
 		}
 	}
@@ -631,10 +630,7 @@ func (r *Reader) parseTable(tableNode *html.Node) *ParsedTable {
 func (r *Reader) parseTableRows(section *html.Node, table *ParsedTable, isHeader bool) {
 	for c := section.FirstChild; c != nil; c = c.NextSibling {
 		if c.Type == html.ElementNode && c.Data == "tr" {
-			row := r.parseTableRow(c, isHeader)
-			if len(row) > 0 {
-				table.Rows = append(table.Rows, row)
-			}
+			table.Rows = append(table.Rows, r.parseTableRow(c, isHeader))
 		}
 	}
 }
